@@ -410,6 +410,33 @@ Proof.
   f_equal. apply Qred_complete. rewrite E3, E4. reflexivity.
 Qed.
 
+(* the same without any syntactic condition on negation: it suffices that neither program is rejected as
+   not two-valued (all other masses are local, see wsum_ind_true_restrict) *)
+Theorem prob_gen_relevant_tv cs ev q :
+  Forall closed_clause cs -> inS q = true -> (forall e, In e ev -> inS (fst e) = true) ->
+  prob_gen A eqb cs ev q <> NotTwoValued -> prob_gen A eqb (filter keeph cs) ev q <> NotTwoValued ->
+  prob_gen A eqb (filter keeph cs) ev q = prob_gen A eqb cs ev q.
+Proof.
+  intros Hcl Hq Hev. unfold prob_gen.
+  set (U := universe A eqb cs). set (U' := universe A eqb (filter keeph cs)).
+  pose proof (wsum_fuel_zero cs U) as F1. pose proof (wsum_fuel_zero (filter keeph cs) U') as F2.
+  apply Qeq_bool_iff in F1, F2. rewrite F1, F2. cbn [negb].
+  destruct (Qeq_bool (wsum A (ind_undef A eqb U (fun _ => true)) cs []) 0); cbn [negb]; [|intro K; exfalso; apply K; reflexivity].
+  destruct (Qeq_bool (wsum A (ind_undef A eqb U' (fun _ => true)) (filter keeph cs) []) 0); cbn [negb];
+    [|intros _ K; exfalso; apply K; reflexivity].
+  intros _ _.
+  assert (wsum A (ind_true A eqb U (fun T => holds A eqb T ev)) cs []
+          == wsum A (ind_true A eqb U' (fun T => holds A eqb T ev)) (filter keeph cs) []) as E3.
+  { apply wsum_ind_true_restrict; [exact Hcl|]. intros T T' HT. apply holds_agree; assumption. }
+  assert (wsum A (ind_true A eqb U (fun T => mem q T && holds A eqb T ev)) cs []
+          == wsum A (ind_true A eqb U' (fun T => mem q T && holds A eqb T ev)) (filter keeph cs) []) as E4.
+  { apply wsum_ind_true_restrict; [exact Hcl|]. intros T T' HT.
+    rewrite (mem_agree T T' q HT Hq). f_equal. apply holds_agree; assumption. }
+  rewrite (Qeq_bool_comp _ _ E3).
+  destruct (Qeq_bool (wsum A (ind_true A eqb U' (fun T => holds A eqb T ev)) (filter keeph cs) []) 0); [reflexivity|].
+  f_equal. apply Qred_complete. rewrite E3, E4. reflexivity.
+Qed.
+
 Theorem prob_gen_relevant cs ev q :
   neg_cycle_free A eqb cs = Some true -> Forall closed_clause cs ->
   inS q = true -> (forall e, In e ev -> inS (fst e) = true) ->
@@ -493,6 +520,37 @@ Proof.
   apply (prob_gen_relevant A eqb eqb_spec (fun a => mem A eqb a C) cs ev q Hncf Hcl).
   - apply (mem_spec A eqb eqb_spec). apply Hg. exact Hq.
   - intros e He. apply (mem_spec A eqb eqb_spec). apply Hg. apply Hev. exact He.
+Qed.
+
+Theorem prob_gen_restrict_tv cs goals cs' ev q :
+  restrict A eqb cs goals = Some cs' -> In q goals -> (forall e, In e ev -> In (fst e) goals) ->
+  prob_gen A eqb cs ev q <> NotTwoValued -> prob_gen A eqb cs' ev q <> NotTwoValued ->
+  prob_gen A eqb cs' ev q = prob_gen A eqb cs ev q.
+Proof.
+  unfold restrict. destruct (cone A eqb (edges A cs) goals) as [C|] eqn:EC; [|discriminate].
+  intros H Hq Hev. inversion H; subst cs'. clear H.
+  pose proof (cone_closed cs goals C EC) as Hcl. destruct (cone_spec _ _ _ EC) as [Hg _].
+  apply (prob_gen_relevant_tv A eqb eqb_spec (fun a => mem A eqb a C) cs ev q Hcl).
+  - apply (mem_spec A eqb eqb_spec). apply Hg. exact Hq.
+  - intros e He. apply (mem_spec A eqb eqb_spec). apply Hg. apply Hev. exact He.
+Qed.
+
+(* the restricted program of a program without negative cycle has no negative cycle in the sense needed here:
+   it is stratified by the same level mapping, hence never rejected *)
+Theorem restrict_not_NotTwoValued cs goals cs' ev q :
+  restrict A eqb cs goals = Some cs' -> neg_cycle_free A eqb cs = Some true ->
+  prob_gen A eqb cs' ev q <> NotTwoValued.
+Proof.
+  unfold restrict. destruct (cone A eqb (edges A cs) goals) as [C|]; [|discriminate].
+  intros H Hn. inversion H; subst cs'. clear H.
+  destruct (neg_cycle_free_stratified A eqb eqb_spec cs Hn) as [lvl HS].
+  unfold prob_gen.
+  destruct (negb (Qeq_bool (wsum A (ind_fuel A eqb (universe A eqb (filter (fun c => existsb (fun h => mem A eqb h C) (clause_heads c)) cs)))
+                                 (filter (fun c => existsb (fun h => mem A eqb h C) (clause_heads c)) cs) []) 0)); [discriminate|].
+  pose proof (stratified_wsum_undef A eqb eqb_spec (fun _ => true) lvl _ (universe A eqb (filter (fun c => existsb (fun h => mem A eqb h C) (clause_heads c)) cs))
+                (fun _ => true) (stratified_filter A lvl cs (fun c => existsb (fun h => mem A eqb h C) (clause_heads c)) HS)) as Z.
+  apply Qeq_bool_iff in Z. rewrite Z. cbn [negb].
+  match goal with |- (if ?c then _ else _) <> _ => destruct c end; discriminate.
 Qed.
 
 (* without any hypothesis on negation: the unnormalised masses P(chk) for checks that only look at the cone,
